@@ -142,10 +142,10 @@ inst!(disp_g1_40_3, [props=C09+C01+C02+C07 xprops=C14 tier=thorough cfg=x86std t
 inst!(disp_g1_47_48, [props=C09+C01+C02+C07 xprops=C14 tier=thorough cfg=x86std t=1800 role=dispatcher-symbolic-cpu uw=byte_by_byte:34;all::memchr::One::count_raw.0:67;all::memchr:10;find_raw.0:3;find_raw.1:4;count_raw.0:3;count_raw.1:4], 50,
     x86::dispatcher::<47, 48>(1));
 #[cfg(any(vcfg_x86std, vcfg_x86none, vcfg_x86alloc, vcfg_x86avx2, vcfg_x86rel))]
-inst!(disp_g1_63_64, [props=C09+C01+C02+C07 xprops=C14 tier=thorough cfg=x86std t=1800 role=dispatcher-symbolic-cpu uw=byte_by_byte:34;all::memchr::One::count_raw.0:67;all::memchr:10;find_raw.0:3;find_raw.1:4;count_raw.0:3;count_raw.1:4], 66,
+inst!(disp_g1_63_64, [props=C09+C01+C02+C07 xprops=C14 tier=manual cfg=x86std t=1800 role=dispatcher-symbolic-cpu uw=byte_by_byte:34;all::memchr::One::count_raw.0:67;all::memchr:10;find_raw.0:3;find_raw.1:4;count_raw.0:3;count_raw.1:4], 66,
     x86::dispatcher::<63, 64>(1));
 #[cfg(any(vcfg_x86std, vcfg_x86none, vcfg_x86alloc, vcfg_x86avx2, vcfg_x86rel))]
-inst!(disp_g1_64_65, [props=C09+C01+C02+C07 xprops=C14 tier=thorough cfg=x86std t=1800 role=dispatcher-symbolic-cpu uw=byte_by_byte:34;all::memchr::One::count_raw.0:67;all::memchr:10;find_raw.0:3;find_raw.1:4;count_raw.0:3;count_raw.1:4], 67,
+inst!(disp_g1_64_65, [props=C09+C01+C02+C07 xprops=C14 tier=manual cfg=x86std t=1800 role=dispatcher-symbolic-cpu uw=byte_by_byte:34;all::memchr::One::count_raw.0:67;all::memchr:10;find_raw.0:3;find_raw.1:4;count_raw.0:3;count_raw.1:4], 67,
     x86::dispatcher::<64, 65>(1));
 #[cfg(any(vcfg_x86std, vcfg_x86none, vcfg_x86alloc, vcfg_x86avx2, vcfg_x86rel))]
 inst!(disp_g2_1_5, [props=C09+C01+C02 xprops=C14 tier=quick cfg=x86std t=1800 role=dispatcher-symbolic-cpu uw=byte_by_byte:34;all::memchr::One::count_raw.0:67;all::memchr:10;find_raw.0:3;find_raw.1:4;count_raw.0:3;count_raw.1:4], 3,
@@ -154,13 +154,13 @@ inst!(disp_g2_1_5, [props=C09+C01+C02 xprops=C14 tier=quick cfg=x86std t=1800 ro
 inst!(disp_g2_7_15, [props=C09+C01+C02 xprops=C14 tier=quick cfg=x86std t=1800 role=dispatcher-symbolic-cpu uw=byte_by_byte:34;all::memchr::One::count_raw.0:67;all::memchr:10;find_raw.0:3;find_raw.1:4;count_raw.0:3;count_raw.1:4], 3,
     x86::dispatcher::<7, 15>(2));
 #[cfg(any(vcfg_x86std, vcfg_x86none, vcfg_x86alloc, vcfg_x86avx2, vcfg_x86rel))]
-inst!(disp_g2_16_17, [props=C09+C01+C02 xprops=C14 tier=thorough cfg=x86std t=1800 role=dispatcher-symbolic-cpu uw=byte_by_byte:34;all::memchr::One::count_raw.0:67;all::memchr:10;find_raw.0:3;find_raw.1:4;count_raw.0:3;count_raw.1:4], 3,
+inst!(disp_g2_16_17, [props=C09+C01+C02 xprops=C14 tier=manual cfg=x86std t=1800 role=dispatcher-symbolic-cpu uw=byte_by_byte:34;all::memchr::One::count_raw.0:67;all::memchr:10;find_raw.0:3;find_raw.1:4;count_raw.0:3;count_raw.1:4], 3,
     x86::dispatcher::<16, 17>(2));
 #[cfg(any(vcfg_x86std, vcfg_x86none, vcfg_x86alloc, vcfg_x86avx2, vcfg_x86rel))]
-inst!(disp_g2_31_32, [props=C09+C01+C02 xprops=C14 tier=thorough cfg=x86std t=1800 role=dispatcher-symbolic-cpu uw=byte_by_byte:34;all::memchr::One::count_raw.0:67;all::memchr:10;find_raw.0:3;find_raw.1:4;count_raw.0:3;count_raw.1:4], 3,
+inst!(disp_g2_31_32, [props=C09+C01+C02 xprops=C14 tier=manual cfg=x86std t=1800 role=dispatcher-symbolic-cpu uw=byte_by_byte:34;all::memchr::One::count_raw.0:67;all::memchr:10;find_raw.0:3;find_raw.1:4;count_raw.0:3;count_raw.1:4], 3,
     x86::dispatcher::<31, 32>(2));
 #[cfg(any(vcfg_x86std, vcfg_x86none, vcfg_x86alloc, vcfg_x86avx2, vcfg_x86rel))]
-inst!(disp_g2_33_9, [props=C09+C01+C02 xprops=C14 tier=thorough cfg=x86std t=1800 role=dispatcher-symbolic-cpu uw=byte_by_byte:34;all::memchr::One::count_raw.0:67;all::memchr:10;find_raw.0:3;find_raw.1:4;count_raw.0:3;count_raw.1:4], 3,
+inst!(disp_g2_33_9, [props=C09+C01+C02 xprops=C14 tier=manual cfg=x86std t=1800 role=dispatcher-symbolic-cpu uw=byte_by_byte:34;all::memchr::One::count_raw.0:67;all::memchr:10;find_raw.0:3;find_raw.1:4;count_raw.0:3;count_raw.1:4], 3,
     x86::dispatcher::<33, 9>(2));
 #[cfg(any(vcfg_x86std, vcfg_x86none, vcfg_x86alloc, vcfg_x86avx2, vcfg_x86rel))]
 inst!(disp_g2_1_14, [props=C09+C01+C02 xprops=C14 tier=thorough cfg=x86std t=1800 role=dispatcher-symbolic-cpu uw=byte_by_byte:34;all::memchr::One::count_raw.0:67;all::memchr:10;find_raw.0:3;find_raw.1:4;count_raw.0:3;count_raw.1:4], 3,
@@ -172,22 +172,22 @@ inst!(disp_g2_8_24, [props=C09+C01+C02 xprops=C14 tier=thorough cfg=x86std t=180
 inst!(disp_g2_15_16, [props=C09+C01+C02 xprops=C14 tier=thorough cfg=x86std t=1800 role=dispatcher-symbolic-cpu uw=byte_by_byte:34;all::memchr::One::count_raw.0:67;all::memchr:10;find_raw.0:3;find_raw.1:4;count_raw.0:3;count_raw.1:4], 3,
     x86::dispatcher::<15, 16>(2));
 #[cfg(any(vcfg_x86std, vcfg_x86none, vcfg_x86alloc, vcfg_x86avx2, vcfg_x86rel))]
-inst!(disp_g2_17_31, [props=C09+C01+C02 xprops=C14 tier=thorough cfg=x86std t=1800 role=dispatcher-symbolic-cpu uw=byte_by_byte:34;all::memchr::One::count_raw.0:67;all::memchr:10;find_raw.0:3;find_raw.1:4;count_raw.0:3;count_raw.1:4], 3,
+inst!(disp_g2_17_31, [props=C09+C01+C02 xprops=C14 tier=manual cfg=x86std t=1800 role=dispatcher-symbolic-cpu uw=byte_by_byte:34;all::memchr::One::count_raw.0:67;all::memchr:10;find_raw.0:3;find_raw.1:4;count_raw.0:3;count_raw.1:4], 3,
     x86::dispatcher::<17, 31>(2));
 #[cfg(any(vcfg_x86std, vcfg_x86none, vcfg_x86alloc, vcfg_x86avx2, vcfg_x86rel))]
-inst!(disp_g2_32_33, [props=C09+C01+C02 xprops=C14 tier=thorough cfg=x86std t=1800 role=dispatcher-symbolic-cpu uw=byte_by_byte:34;all::memchr::One::count_raw.0:67;all::memchr:10;find_raw.0:3;find_raw.1:4;count_raw.0:3;count_raw.1:4], 3,
+inst!(disp_g2_32_33, [props=C09+C01+C02 xprops=C14 tier=manual cfg=x86std t=1800 role=dispatcher-symbolic-cpu uw=byte_by_byte:34;all::memchr::One::count_raw.0:67;all::memchr:10;find_raw.0:3;find_raw.1:4;count_raw.0:3;count_raw.1:4], 3,
     x86::dispatcher::<32, 33>(2));
 #[cfg(any(vcfg_x86std, vcfg_x86none, vcfg_x86alloc, vcfg_x86avx2, vcfg_x86rel))]
 inst!(disp_g2_40_3, [props=C09+C01+C02 xprops=C14 tier=thorough cfg=x86std t=1800 role=dispatcher-symbolic-cpu uw=byte_by_byte:34;all::memchr::One::count_raw.0:67;all::memchr:10;find_raw.0:3;find_raw.1:4;count_raw.0:3;count_raw.1:4], 3,
     x86::dispatcher::<40, 3>(2));
 #[cfg(any(vcfg_x86std, vcfg_x86none, vcfg_x86alloc, vcfg_x86avx2, vcfg_x86rel))]
-inst!(disp_g2_47_48, [props=C09+C01+C02 xprops=C14 tier=thorough cfg=x86std t=1800 role=dispatcher-symbolic-cpu uw=byte_by_byte:34;all::memchr::One::count_raw.0:67;all::memchr:10;find_raw.0:3;find_raw.1:4;count_raw.0:3;count_raw.1:4], 3,
+inst!(disp_g2_47_48, [props=C09+C01+C02 xprops=C14 tier=manual cfg=x86std t=1800 role=dispatcher-symbolic-cpu uw=byte_by_byte:34;all::memchr::One::count_raw.0:67;all::memchr:10;find_raw.0:3;find_raw.1:4;count_raw.0:3;count_raw.1:4], 3,
     x86::dispatcher::<47, 48>(2));
 #[cfg(any(vcfg_x86std, vcfg_x86none, vcfg_x86alloc, vcfg_x86avx2, vcfg_x86rel))]
-inst!(disp_g2_63_64, [props=C09+C01+C02 xprops=C14 tier=thorough cfg=x86std t=1800 role=dispatcher-symbolic-cpu uw=byte_by_byte:34;all::memchr::One::count_raw.0:67;all::memchr:10;find_raw.0:3;find_raw.1:4;count_raw.0:3;count_raw.1:4], 3,
+inst!(disp_g2_63_64, [props=C09+C01+C02 xprops=C14 tier=manual cfg=x86std t=1800 role=dispatcher-symbolic-cpu uw=byte_by_byte:34;all::memchr::One::count_raw.0:67;all::memchr:10;find_raw.0:3;find_raw.1:4;count_raw.0:3;count_raw.1:4], 3,
     x86::dispatcher::<63, 64>(2));
 #[cfg(any(vcfg_x86std, vcfg_x86none, vcfg_x86alloc, vcfg_x86avx2, vcfg_x86rel))]
-inst!(disp_g2_64_65, [props=C09+C01+C02 xprops=C14 tier=thorough cfg=x86std t=1800 role=dispatcher-symbolic-cpu uw=byte_by_byte:34;all::memchr::One::count_raw.0:67;all::memchr:10;find_raw.0:3;find_raw.1:4;count_raw.0:3;count_raw.1:4], 3,
+inst!(disp_g2_64_65, [props=C09+C01+C02 xprops=C14 tier=manual cfg=x86std t=1800 role=dispatcher-symbolic-cpu uw=byte_by_byte:34;all::memchr::One::count_raw.0:67;all::memchr:10;find_raw.0:3;find_raw.1:4;count_raw.0:3;count_raw.1:4], 3,
     x86::dispatcher::<64, 65>(2));
 #[cfg(any(vcfg_x86std, vcfg_x86none, vcfg_x86alloc, vcfg_x86avx2, vcfg_x86rel))]
 inst!(disp_g3_1_5, [props=C09+C01+C02 xprops=C14 tier=quick cfg=x86std t=1800 role=dispatcher-symbolic-cpu uw=byte_by_byte:34;all::memchr::One::count_raw.0:67;all::memchr:10;find_raw.0:3;find_raw.1:4;count_raw.0:3;count_raw.1:4], 3,
@@ -196,13 +196,13 @@ inst!(disp_g3_1_5, [props=C09+C01+C02 xprops=C14 tier=quick cfg=x86std t=1800 ro
 inst!(disp_g3_7_15, [props=C09+C01+C02 xprops=C14 tier=quick cfg=x86std t=1800 role=dispatcher-symbolic-cpu uw=byte_by_byte:34;all::memchr::One::count_raw.0:67;all::memchr:10;find_raw.0:3;find_raw.1:4;count_raw.0:3;count_raw.1:4], 3,
     x86::dispatcher::<7, 15>(3));
 #[cfg(any(vcfg_x86std, vcfg_x86none, vcfg_x86alloc, vcfg_x86avx2, vcfg_x86rel))]
-inst!(disp_g3_16_17, [props=C09+C01+C02 xprops=C14 tier=thorough cfg=x86std t=1800 role=dispatcher-symbolic-cpu uw=byte_by_byte:34;all::memchr::One::count_raw.0:67;all::memchr:10;find_raw.0:3;find_raw.1:4;count_raw.0:3;count_raw.1:4], 3,
+inst!(disp_g3_16_17, [props=C09+C01+C02 xprops=C14 tier=manual cfg=x86std t=1800 role=dispatcher-symbolic-cpu uw=byte_by_byte:34;all::memchr::One::count_raw.0:67;all::memchr:10;find_raw.0:3;find_raw.1:4;count_raw.0:3;count_raw.1:4], 3,
     x86::dispatcher::<16, 17>(3));
 #[cfg(any(vcfg_x86std, vcfg_x86none, vcfg_x86alloc, vcfg_x86avx2, vcfg_x86rel))]
-inst!(disp_g3_31_32, [props=C09+C01+C02 xprops=C14 tier=thorough cfg=x86std t=1800 role=dispatcher-symbolic-cpu uw=byte_by_byte:34;all::memchr::One::count_raw.0:67;all::memchr:10;find_raw.0:3;find_raw.1:4;count_raw.0:3;count_raw.1:4], 3,
+inst!(disp_g3_31_32, [props=C09+C01+C02 xprops=C14 tier=manual cfg=x86std t=1800 role=dispatcher-symbolic-cpu uw=byte_by_byte:34;all::memchr::One::count_raw.0:67;all::memchr:10;find_raw.0:3;find_raw.1:4;count_raw.0:3;count_raw.1:4], 3,
     x86::dispatcher::<31, 32>(3));
 #[cfg(any(vcfg_x86std, vcfg_x86none, vcfg_x86alloc, vcfg_x86avx2, vcfg_x86rel))]
-inst!(disp_g3_33_9, [props=C09+C01+C02 xprops=C14 tier=thorough cfg=x86std t=1800 role=dispatcher-symbolic-cpu uw=byte_by_byte:34;all::memchr::One::count_raw.0:67;all::memchr:10;find_raw.0:3;find_raw.1:4;count_raw.0:3;count_raw.1:4], 3,
+inst!(disp_g3_33_9, [props=C09+C01+C02 xprops=C14 tier=manual cfg=x86std t=1800 role=dispatcher-symbolic-cpu uw=byte_by_byte:34;all::memchr::One::count_raw.0:67;all::memchr:10;find_raw.0:3;find_raw.1:4;count_raw.0:3;count_raw.1:4], 3,
     x86::dispatcher::<33, 9>(3));
 #[cfg(any(vcfg_x86std, vcfg_x86none, vcfg_x86alloc, vcfg_x86avx2, vcfg_x86rel))]
 inst!(disp_g3_1_14, [props=C09+C01+C02 xprops=C14 tier=thorough cfg=x86std t=1800 role=dispatcher-symbolic-cpu uw=byte_by_byte:34;all::memchr::One::count_raw.0:67;all::memchr:10;find_raw.0:3;find_raw.1:4;count_raw.0:3;count_raw.1:4], 3,
@@ -214,22 +214,22 @@ inst!(disp_g3_8_24, [props=C09+C01+C02 xprops=C14 tier=thorough cfg=x86std t=180
 inst!(disp_g3_15_16, [props=C09+C01+C02 xprops=C14 tier=thorough cfg=x86std t=1800 role=dispatcher-symbolic-cpu uw=byte_by_byte:34;all::memchr::One::count_raw.0:67;all::memchr:10;find_raw.0:3;find_raw.1:4;count_raw.0:3;count_raw.1:4], 3,
     x86::dispatcher::<15, 16>(3));
 #[cfg(any(vcfg_x86std, vcfg_x86none, vcfg_x86alloc, vcfg_x86avx2, vcfg_x86rel))]
-inst!(disp_g3_17_31, [props=C09+C01+C02 xprops=C14 tier=thorough cfg=x86std t=1800 role=dispatcher-symbolic-cpu uw=byte_by_byte:34;all::memchr::One::count_raw.0:67;all::memchr:10;find_raw.0:3;find_raw.1:4;count_raw.0:3;count_raw.1:4], 3,
+inst!(disp_g3_17_31, [props=C09+C01+C02 xprops=C14 tier=manual cfg=x86std t=1800 role=dispatcher-symbolic-cpu uw=byte_by_byte:34;all::memchr::One::count_raw.0:67;all::memchr:10;find_raw.0:3;find_raw.1:4;count_raw.0:3;count_raw.1:4], 3,
     x86::dispatcher::<17, 31>(3));
 #[cfg(any(vcfg_x86std, vcfg_x86none, vcfg_x86alloc, vcfg_x86avx2, vcfg_x86rel))]
-inst!(disp_g3_32_33, [props=C09+C01+C02 xprops=C14 tier=thorough cfg=x86std t=1800 role=dispatcher-symbolic-cpu uw=byte_by_byte:34;all::memchr::One::count_raw.0:67;all::memchr:10;find_raw.0:3;find_raw.1:4;count_raw.0:3;count_raw.1:4], 3,
+inst!(disp_g3_32_33, [props=C09+C01+C02 xprops=C14 tier=manual cfg=x86std t=1800 role=dispatcher-symbolic-cpu uw=byte_by_byte:34;all::memchr::One::count_raw.0:67;all::memchr:10;find_raw.0:3;find_raw.1:4;count_raw.0:3;count_raw.1:4], 3,
     x86::dispatcher::<32, 33>(3));
 #[cfg(any(vcfg_x86std, vcfg_x86none, vcfg_x86alloc, vcfg_x86avx2, vcfg_x86rel))]
-inst!(disp_g3_40_3, [props=C09+C01+C02 xprops=C14 tier=thorough cfg=x86std t=1800 role=dispatcher-symbolic-cpu uw=byte_by_byte:34;all::memchr::One::count_raw.0:67;all::memchr:10;find_raw.0:3;find_raw.1:4;count_raw.0:3;count_raw.1:4], 3,
+inst!(disp_g3_40_3, [props=C09+C01+C02 xprops=C14 tier=manual cfg=x86std t=1800 role=dispatcher-symbolic-cpu uw=byte_by_byte:34;all::memchr::One::count_raw.0:67;all::memchr:10;find_raw.0:3;find_raw.1:4;count_raw.0:3;count_raw.1:4], 3,
     x86::dispatcher::<40, 3>(3));
 #[cfg(any(vcfg_x86std, vcfg_x86none, vcfg_x86alloc, vcfg_x86avx2, vcfg_x86rel))]
-inst!(disp_g3_47_48, [props=C09+C01+C02 xprops=C14 tier=thorough cfg=x86std t=1800 role=dispatcher-symbolic-cpu uw=byte_by_byte:34;all::memchr::One::count_raw.0:67;all::memchr:10;find_raw.0:3;find_raw.1:4;count_raw.0:3;count_raw.1:4], 3,
+inst!(disp_g3_47_48, [props=C09+C01+C02 xprops=C14 tier=manual cfg=x86std t=1800 role=dispatcher-symbolic-cpu uw=byte_by_byte:34;all::memchr::One::count_raw.0:67;all::memchr:10;find_raw.0:3;find_raw.1:4;count_raw.0:3;count_raw.1:4], 3,
     x86::dispatcher::<47, 48>(3));
 #[cfg(any(vcfg_x86std, vcfg_x86none, vcfg_x86alloc, vcfg_x86avx2, vcfg_x86rel))]
-inst!(disp_g3_63_64, [props=C09+C01+C02 xprops=C14 tier=thorough cfg=x86std t=1800 role=dispatcher-symbolic-cpu uw=byte_by_byte:34;all::memchr::One::count_raw.0:67;all::memchr:10;find_raw.0:3;find_raw.1:4;count_raw.0:3;count_raw.1:4], 3,
+inst!(disp_g3_63_64, [props=C09+C01+C02 xprops=C14 tier=manual cfg=x86std t=1800 role=dispatcher-symbolic-cpu uw=byte_by_byte:34;all::memchr::One::count_raw.0:67;all::memchr:10;find_raw.0:3;find_raw.1:4;count_raw.0:3;count_raw.1:4], 3,
     x86::dispatcher::<63, 64>(3));
 #[cfg(any(vcfg_x86std, vcfg_x86none, vcfg_x86alloc, vcfg_x86avx2, vcfg_x86rel))]
-inst!(disp_g3_64_65, [props=C09+C01+C02 xprops=C14 tier=thorough cfg=x86std t=1800 role=dispatcher-symbolic-cpu uw=byte_by_byte:34;all::memchr::One::count_raw.0:67;all::memchr:10;find_raw.0:3;find_raw.1:4;count_raw.0:3;count_raw.1:4], 3,
+inst!(disp_g3_64_65, [props=C09+C01+C02 xprops=C14 tier=manual cfg=x86std t=1800 role=dispatcher-symbolic-cpu uw=byte_by_byte:34;all::memchr::One::count_raw.0:67;all::memchr:10;find_raw.0:3;find_raw.1:4;count_raw.0:3;count_raw.1:4], 3,
     x86::dispatcher::<64, 65>(3));
 #[cfg(any(vcfg_x86std, vcfg_x86none, vcfg_x86alloc, vcfg_x86avx2, vcfg_x86rel))]
 inst!(diff_g1_12, [props=C09 xprops=C14 tier=quick cfg=x86std t=1800 role=backend-differential uw=byte_by_byte:34;all::memchr::One::count_raw.0:67;all::memchr:10;find_raw.0:3;find_raw.1:4;count_raw.0:3;count_raw.1:4], 3,
@@ -241,7 +241,7 @@ inst!(diff_g1_18, [props=C09 xprops=C14 tier=thorough cfg=x86std t=1800 role=bac
 inst!(diff_g1_34, [props=C09 xprops=C14 tier=thorough cfg=x86std t=1800 role=backend-differential uw=byte_by_byte:34;all::memchr::One::count_raw.0:67;all::memchr:10;find_raw.0:3;find_raw.1:4;count_raw.0:3;count_raw.1:4], 3,
     x86::differential::<34>(1));
 #[cfg(any(vcfg_x86std, vcfg_x86none, vcfg_x86alloc, vcfg_x86avx2, vcfg_x86rel))]
-inst!(diff_g1_0, [props=C09 xprops=C14 tier=thorough cfg=x86std t=1800 role=backend-differential uw=byte_by_byte:34;all::memchr::One::count_raw.0:67;all::memchr:10;find_raw.0:3;find_raw.1:4;count_raw.0:3;count_raw.1:4], 3,
+inst!(diff_g1_0, [props=C09 xprops=C14 tier=manual cfg=x86std t=1800 role=backend-differential uw=byte_by_byte:34;all::memchr::One::count_raw.0:67;all::memchr:10;find_raw.0:3;find_raw.1:4;count_raw.0:3;count_raw.1:4], 3,
     x86::differential::<0>(1));
 #[cfg(any(vcfg_x86std, vcfg_x86none, vcfg_x86alloc, vcfg_x86avx2, vcfg_x86rel))]
 inst!(diff_g1_1, [props=C09 xprops=C14 tier=thorough cfg=x86std t=1800 role=backend-differential uw=byte_by_byte:34;all::memchr::One::count_raw.0:67;all::memchr:10;find_raw.0:3;find_raw.1:4;count_raw.0:3;count_raw.1:4], 3,
@@ -268,10 +268,10 @@ inst!(diff_g1_33, [props=C09 xprops=C14 tier=thorough cfg=x86std t=1800 role=bac
 inst!(diff_g1_40, [props=C09 xprops=C14 tier=thorough cfg=x86std t=1800 role=backend-differential uw=byte_by_byte:34;all::memchr::One::count_raw.0:67;all::memchr:10;find_raw.0:3;find_raw.1:4;count_raw.0:3;count_raw.1:4], 3,
     x86::differential::<40>(1));
 #[cfg(any(vcfg_x86std, vcfg_x86none, vcfg_x86alloc, vcfg_x86avx2, vcfg_x86rel))]
-inst!(diff_g1_64, [props=C09 xprops=C14 tier=thorough cfg=x86std t=1800 role=backend-differential uw=byte_by_byte:34;all::memchr::One::count_raw.0:67;all::memchr:10;find_raw.0:3;find_raw.1:4;count_raw.0:3;count_raw.1:4], 3,
+inst!(diff_g1_64, [props=C09 xprops=C14 tier=manual cfg=x86std t=1800 role=backend-differential uw=byte_by_byte:34;all::memchr::One::count_raw.0:67;all::memchr:10;find_raw.0:3;find_raw.1:4;count_raw.0:3;count_raw.1:4], 3,
     x86::differential::<64>(1));
 #[cfg(any(vcfg_x86std, vcfg_x86none, vcfg_x86alloc, vcfg_x86avx2, vcfg_x86rel))]
-inst!(diff_g1_65, [props=C09 xprops=C14 tier=thorough cfg=x86std t=1800 role=backend-differential uw=byte_by_byte:34;all::memchr::One::count_raw.0:67;all::memchr:10;find_raw.0:3;find_raw.1:4;count_raw.0:3;count_raw.1:4], 3,
+inst!(diff_g1_65, [props=C09 xprops=C14 tier=manual cfg=x86std t=1800 role=backend-differential uw=byte_by_byte:34;all::memchr::One::count_raw.0:67;all::memchr:10;find_raw.0:3;find_raw.1:4;count_raw.0:3;count_raw.1:4], 3,
     x86::differential::<65>(1));
 #[cfg(any(vcfg_x86std, vcfg_x86none, vcfg_x86alloc, vcfg_x86avx2, vcfg_x86rel))]
 inst!(diff_g2_12, [props=C09 xprops=C14 tier=quick cfg=x86std t=1800 role=backend-differential uw=byte_by_byte:34;all::memchr::One::count_raw.0:67;all::memchr:10;find_raw.0:3;find_raw.1:4;count_raw.0:3;count_raw.1:4], 3,
@@ -280,10 +280,10 @@ inst!(diff_g2_12, [props=C09 xprops=C14 tier=quick cfg=x86std t=1800 role=backen
 inst!(diff_g2_18, [props=C09 xprops=C14 tier=thorough cfg=x86std t=1800 role=backend-differential uw=byte_by_byte:34;all::memchr::One::count_raw.0:67;all::memchr:10;find_raw.0:3;find_raw.1:4;count_raw.0:3;count_raw.1:4], 3,
     x86::differential::<18>(2));
 #[cfg(any(vcfg_x86std, vcfg_x86none, vcfg_x86alloc, vcfg_x86avx2, vcfg_x86rel))]
-inst!(diff_g2_34, [props=C09 xprops=C14 tier=thorough cfg=x86std t=1800 role=backend-differential uw=byte_by_byte:34;all::memchr::One::count_raw.0:67;all::memchr:10;find_raw.0:3;find_raw.1:4;count_raw.0:3;count_raw.1:4], 3,
+inst!(diff_g2_34, [props=C09 xprops=C14 tier=manual cfg=x86std t=1800 role=backend-differential uw=byte_by_byte:34;all::memchr::One::count_raw.0:67;all::memchr:10;find_raw.0:3;find_raw.1:4;count_raw.0:3;count_raw.1:4], 3,
     x86::differential::<34>(2));
 #[cfg(any(vcfg_x86std, vcfg_x86none, vcfg_x86alloc, vcfg_x86avx2, vcfg_x86rel))]
-inst!(diff_g2_0, [props=C09 xprops=C14 tier=thorough cfg=x86std t=1800 role=backend-differential uw=byte_by_byte:34;all::memchr::One::count_raw.0:67;all::memchr:10;find_raw.0:3;find_raw.1:4;count_raw.0:3;count_raw.1:4], 3,
+inst!(diff_g2_0, [props=C09 xprops=C14 tier=manual cfg=x86std t=1800 role=backend-differential uw=byte_by_byte:34;all::memchr::One::count_raw.0:67;all::memchr:10;find_raw.0:3;find_raw.1:4;count_raw.0:3;count_raw.1:4], 3,
     x86::differential::<0>(2));
 #[cfg(any(vcfg_x86std, vcfg_x86none, vcfg_x86alloc, vcfg_x86avx2, vcfg_x86rel))]
 inst!(diff_g2_1, [props=C09 xprops=C14 tier=thorough cfg=x86std t=1800 role=backend-differential uw=byte_by_byte:34;all::memchr::One::count_raw.0:67;all::memchr:10;find_raw.0:3;find_raw.1:4;count_raw.0:3;count_raw.1:4], 3,
@@ -298,34 +298,34 @@ inst!(diff_g2_16, [props=C09 xprops=C14 tier=thorough cfg=x86std t=1800 role=bac
 inst!(diff_g2_17, [props=C09 xprops=C14 tier=thorough cfg=x86std t=1800 role=backend-differential uw=byte_by_byte:34;all::memchr::One::count_raw.0:67;all::memchr:10;find_raw.0:3;find_raw.1:4;count_raw.0:3;count_raw.1:4], 3,
     x86::differential::<17>(2));
 #[cfg(any(vcfg_x86std, vcfg_x86none, vcfg_x86alloc, vcfg_x86avx2, vcfg_x86rel))]
-inst!(diff_g2_31, [props=C09 xprops=C14 tier=thorough cfg=x86std t=1800 role=backend-differential uw=byte_by_byte:34;all::memchr::One::count_raw.0:67;all::memchr:10;find_raw.0:3;find_raw.1:4;count_raw.0:3;count_raw.1:4], 3,
+inst!(diff_g2_31, [props=C09 xprops=C14 tier=manual cfg=x86std t=1800 role=backend-differential uw=byte_by_byte:34;all::memchr::One::count_raw.0:67;all::memchr:10;find_raw.0:3;find_raw.1:4;count_raw.0:3;count_raw.1:4], 3,
     x86::differential::<31>(2));
 #[cfg(any(vcfg_x86std, vcfg_x86none, vcfg_x86alloc, vcfg_x86avx2, vcfg_x86rel))]
-inst!(diff_g2_32, [props=C09 xprops=C14 tier=thorough cfg=x86std t=1800 role=backend-differential uw=byte_by_byte:34;all::memchr::One::count_raw.0:67;all::memchr:10;find_raw.0:3;find_raw.1:4;count_raw.0:3;count_raw.1:4], 3,
+inst!(diff_g2_32, [props=C09 xprops=C14 tier=manual cfg=x86std t=1800 role=backend-differential uw=byte_by_byte:34;all::memchr::One::count_raw.0:67;all::memchr:10;find_raw.0:3;find_raw.1:4;count_raw.0:3;count_raw.1:4], 3,
     x86::differential::<32>(2));
 #[cfg(any(vcfg_x86std, vcfg_x86none, vcfg_x86alloc, vcfg_x86avx2, vcfg_x86rel))]
-inst!(diff_g2_33, [props=C09 xprops=C14 tier=thorough cfg=x86std t=1800 role=backend-differential uw=byte_by_byte:34;all::memchr::One::count_raw.0:67;all::memchr:10;find_raw.0:3;find_raw.1:4;count_raw.0:3;count_raw.1:4], 3,
+inst!(diff_g2_33, [props=C09 xprops=C14 tier=manual cfg=x86std t=1800 role=backend-differential uw=byte_by_byte:34;all::memchr::One::count_raw.0:67;all::memchr:10;find_raw.0:3;find_raw.1:4;count_raw.0:3;count_raw.1:4], 3,
     x86::differential::<33>(2));
 #[cfg(any(vcfg_x86std, vcfg_x86none, vcfg_x86alloc, vcfg_x86avx2, vcfg_x86rel))]
-inst!(diff_g2_40, [props=C09 xprops=C14 tier=thorough cfg=x86std t=1800 role=backend-differential uw=byte_by_byte:34;all::memchr::One::count_raw.0:67;all::memchr:10;find_raw.0:3;find_raw.1:4;count_raw.0:3;count_raw.1:4], 3,
+inst!(diff_g2_40, [props=C09 xprops=C14 tier=manual cfg=x86std t=1800 role=backend-differential uw=byte_by_byte:34;all::memchr::One::count_raw.0:67;all::memchr:10;find_raw.0:3;find_raw.1:4;count_raw.0:3;count_raw.1:4], 3,
     x86::differential::<40>(2));
 #[cfg(any(vcfg_x86std, vcfg_x86none, vcfg_x86alloc, vcfg_x86avx2, vcfg_x86rel))]
-inst!(diff_g2_64, [props=C09 xprops=C14 tier=thorough cfg=x86std t=1800 role=backend-differential uw=byte_by_byte:34;all::memchr::One::count_raw.0:67;all::memchr:10;find_raw.0:3;find_raw.1:4;count_raw.0:3;count_raw.1:4], 3,
+inst!(diff_g2_64, [props=C09 xprops=C14 tier=manual cfg=x86std t=1800 role=backend-differential uw=byte_by_byte:34;all::memchr::One::count_raw.0:67;all::memchr:10;find_raw.0:3;find_raw.1:4;count_raw.0:3;count_raw.1:4], 3,
     x86::differential::<64>(2));
 #[cfg(any(vcfg_x86std, vcfg_x86none, vcfg_x86alloc, vcfg_x86avx2, vcfg_x86rel))]
-inst!(diff_g2_65, [props=C09 xprops=C14 tier=thorough cfg=x86std t=1800 role=backend-differential uw=byte_by_byte:34;all::memchr::One::count_raw.0:67;all::memchr:10;find_raw.0:3;find_raw.1:4;count_raw.0:3;count_raw.1:4], 3,
+inst!(diff_g2_65, [props=C09 xprops=C14 tier=manual cfg=x86std t=1800 role=backend-differential uw=byte_by_byte:34;all::memchr::One::count_raw.0:67;all::memchr:10;find_raw.0:3;find_raw.1:4;count_raw.0:3;count_raw.1:4], 3,
     x86::differential::<65>(2));
 #[cfg(any(vcfg_x86std, vcfg_x86none, vcfg_x86alloc, vcfg_x86avx2, vcfg_x86rel))]
 inst!(diff_g3_12, [props=C09 xprops=C14 tier=quick cfg=x86std t=1800 role=backend-differential uw=byte_by_byte:34;all::memchr::One::count_raw.0:67;all::memchr:10;find_raw.0:3;find_raw.1:4;count_raw.0:3;count_raw.1:4], 3,
     x86::differential::<12>(3));
 #[cfg(any(vcfg_x86std, vcfg_x86none, vcfg_x86alloc, vcfg_x86avx2, vcfg_x86rel))]
-inst!(diff_g3_18, [props=C09 xprops=C14 tier=thorough cfg=x86std t=1800 role=backend-differential uw=byte_by_byte:34;all::memchr::One::count_raw.0:67;all::memchr:10;find_raw.0:3;find_raw.1:4;count_raw.0:3;count_raw.1:4], 3,
+inst!(diff_g3_18, [props=C09 xprops=C14 tier=manual cfg=x86std t=1800 role=backend-differential uw=byte_by_byte:34;all::memchr::One::count_raw.0:67;all::memchr:10;find_raw.0:3;find_raw.1:4;count_raw.0:3;count_raw.1:4], 3,
     x86::differential::<18>(3));
 #[cfg(any(vcfg_x86std, vcfg_x86none, vcfg_x86alloc, vcfg_x86avx2, vcfg_x86rel))]
-inst!(diff_g3_34, [props=C09 xprops=C14 tier=thorough cfg=x86std t=1800 role=backend-differential uw=byte_by_byte:34;all::memchr::One::count_raw.0:67;all::memchr:10;find_raw.0:3;find_raw.1:4;count_raw.0:3;count_raw.1:4], 3,
+inst!(diff_g3_34, [props=C09 xprops=C14 tier=manual cfg=x86std t=1800 role=backend-differential uw=byte_by_byte:34;all::memchr::One::count_raw.0:67;all::memchr:10;find_raw.0:3;find_raw.1:4;count_raw.0:3;count_raw.1:4], 3,
     x86::differential::<34>(3));
 #[cfg(any(vcfg_x86std, vcfg_x86none, vcfg_x86alloc, vcfg_x86avx2, vcfg_x86rel))]
-inst!(diff_g3_0, [props=C09 xprops=C14 tier=thorough cfg=x86std t=1800 role=backend-differential uw=byte_by_byte:34;all::memchr::One::count_raw.0:67;all::memchr:10;find_raw.0:3;find_raw.1:4;count_raw.0:3;count_raw.1:4], 3,
+inst!(diff_g3_0, [props=C09 xprops=C14 tier=manual cfg=x86std t=1800 role=backend-differential uw=byte_by_byte:34;all::memchr::One::count_raw.0:67;all::memchr:10;find_raw.0:3;find_raw.1:4;count_raw.0:3;count_raw.1:4], 3,
     x86::differential::<0>(3));
 #[cfg(any(vcfg_x86std, vcfg_x86none, vcfg_x86alloc, vcfg_x86avx2, vcfg_x86rel))]
 inst!(diff_g3_1, [props=C09 xprops=C14 tier=thorough cfg=x86std t=1800 role=backend-differential uw=byte_by_byte:34;all::memchr::One::count_raw.0:67;all::memchr:10;find_raw.0:3;find_raw.1:4;count_raw.0:3;count_raw.1:4], 3,
@@ -334,28 +334,28 @@ inst!(diff_g3_1, [props=C09 xprops=C14 tier=thorough cfg=x86std t=1800 role=back
 inst!(diff_g3_15, [props=C09 xprops=C14 tier=thorough cfg=x86std t=1800 role=backend-differential uw=byte_by_byte:34;all::memchr::One::count_raw.0:67;all::memchr:10;find_raw.0:3;find_raw.1:4;count_raw.0:3;count_raw.1:4], 3,
     x86::differential::<15>(3));
 #[cfg(any(vcfg_x86std, vcfg_x86none, vcfg_x86alloc, vcfg_x86avx2, vcfg_x86rel))]
-inst!(diff_g3_16, [props=C09 xprops=C14 tier=thorough cfg=x86std t=1800 role=backend-differential uw=byte_by_byte:34;all::memchr::One::count_raw.0:67;all::memchr:10;find_raw.0:3;find_raw.1:4;count_raw.0:3;count_raw.1:4], 3,
+inst!(diff_g3_16, [props=C09 xprops=C14 tier=manual cfg=x86std t=1800 role=backend-differential uw=byte_by_byte:34;all::memchr::One::count_raw.0:67;all::memchr:10;find_raw.0:3;find_raw.1:4;count_raw.0:3;count_raw.1:4], 3,
     x86::differential::<16>(3));
 #[cfg(any(vcfg_x86std, vcfg_x86none, vcfg_x86alloc, vcfg_x86avx2, vcfg_x86rel))]
-inst!(diff_g3_17, [props=C09 xprops=C14 tier=thorough cfg=x86std t=1800 role=backend-differential uw=byte_by_byte:34;all::memchr::One::count_raw.0:67;all::memchr:10;find_raw.0:3;find_raw.1:4;count_raw.0:3;count_raw.1:4], 3,
+inst!(diff_g3_17, [props=C09 xprops=C14 tier=manual cfg=x86std t=1800 role=backend-differential uw=byte_by_byte:34;all::memchr::One::count_raw.0:67;all::memchr:10;find_raw.0:3;find_raw.1:4;count_raw.0:3;count_raw.1:4], 3,
     x86::differential::<17>(3));
 #[cfg(any(vcfg_x86std, vcfg_x86none, vcfg_x86alloc, vcfg_x86avx2, vcfg_x86rel))]
-inst!(diff_g3_31, [props=C09 xprops=C14 tier=thorough cfg=x86std t=1800 role=backend-differential uw=byte_by_byte:34;all::memchr::One::count_raw.0:67;all::memchr:10;find_raw.0:3;find_raw.1:4;count_raw.0:3;count_raw.1:4], 3,
+inst!(diff_g3_31, [props=C09 xprops=C14 tier=manual cfg=x86std t=1800 role=backend-differential uw=byte_by_byte:34;all::memchr::One::count_raw.0:67;all::memchr:10;find_raw.0:3;find_raw.1:4;count_raw.0:3;count_raw.1:4], 3,
     x86::differential::<31>(3));
 #[cfg(any(vcfg_x86std, vcfg_x86none, vcfg_x86alloc, vcfg_x86avx2, vcfg_x86rel))]
-inst!(diff_g3_32, [props=C09 xprops=C14 tier=thorough cfg=x86std t=1800 role=backend-differential uw=byte_by_byte:34;all::memchr::One::count_raw.0:67;all::memchr:10;find_raw.0:3;find_raw.1:4;count_raw.0:3;count_raw.1:4], 3,
+inst!(diff_g3_32, [props=C09 xprops=C14 tier=manual cfg=x86std t=1800 role=backend-differential uw=byte_by_byte:34;all::memchr::One::count_raw.0:67;all::memchr:10;find_raw.0:3;find_raw.1:4;count_raw.0:3;count_raw.1:4], 3,
     x86::differential::<32>(3));
 #[cfg(any(vcfg_x86std, vcfg_x86none, vcfg_x86alloc, vcfg_x86avx2, vcfg_x86rel))]
-inst!(diff_g3_33, [props=C09 xprops=C14 tier=thorough cfg=x86std t=1800 role=backend-differential uw=byte_by_byte:34;all::memchr::One::count_raw.0:67;all::memchr:10;find_raw.0:3;find_raw.1:4;count_raw.0:3;count_raw.1:4], 3,
+inst!(diff_g3_33, [props=C09 xprops=C14 tier=manual cfg=x86std t=1800 role=backend-differential uw=byte_by_byte:34;all::memchr::One::count_raw.0:67;all::memchr:10;find_raw.0:3;find_raw.1:4;count_raw.0:3;count_raw.1:4], 3,
     x86::differential::<33>(3));
 #[cfg(any(vcfg_x86std, vcfg_x86none, vcfg_x86alloc, vcfg_x86avx2, vcfg_x86rel))]
-inst!(diff_g3_40, [props=C09 xprops=C14 tier=thorough cfg=x86std t=1800 role=backend-differential uw=byte_by_byte:34;all::memchr::One::count_raw.0:67;all::memchr:10;find_raw.0:3;find_raw.1:4;count_raw.0:3;count_raw.1:4], 3,
+inst!(diff_g3_40, [props=C09 xprops=C14 tier=manual cfg=x86std t=1800 role=backend-differential uw=byte_by_byte:34;all::memchr::One::count_raw.0:67;all::memchr:10;find_raw.0:3;find_raw.1:4;count_raw.0:3;count_raw.1:4], 3,
     x86::differential::<40>(3));
 #[cfg(any(vcfg_x86std, vcfg_x86none, vcfg_x86alloc, vcfg_x86avx2, vcfg_x86rel))]
-inst!(diff_g3_64, [props=C09 xprops=C14 tier=thorough cfg=x86std t=1800 role=backend-differential uw=byte_by_byte:34;all::memchr::One::count_raw.0:67;all::memchr:10;find_raw.0:3;find_raw.1:4;count_raw.0:3;count_raw.1:4], 3,
+inst!(diff_g3_64, [props=C09 xprops=C14 tier=manual cfg=x86std t=1800 role=backend-differential uw=byte_by_byte:34;all::memchr::One::count_raw.0:67;all::memchr:10;find_raw.0:3;find_raw.1:4;count_raw.0:3;count_raw.1:4], 3,
     x86::differential::<64>(3));
 #[cfg(any(vcfg_x86std, vcfg_x86none, vcfg_x86alloc, vcfg_x86avx2, vcfg_x86rel))]
-inst!(diff_g3_65, [props=C09 xprops=C14 tier=thorough cfg=x86std t=1800 role=backend-differential uw=byte_by_byte:34;all::memchr::One::count_raw.0:67;all::memchr:10;find_raw.0:3;find_raw.1:4;count_raw.0:3;count_raw.1:4], 3,
+inst!(diff_g3_65, [props=C09 xprops=C14 tier=manual cfg=x86std t=1800 role=backend-differential uw=byte_by_byte:34;all::memchr::One::count_raw.0:67;all::memchr:10;find_raw.0:3;find_raw.1:4;count_raw.0:3;count_raw.1:4], 3,
     x86::differential::<65>(3));
 
 // ---------------------------------------------------------------------------
